@@ -141,3 +141,15 @@ def replay_token_class(w: str, token) -> str:
     if toks != ref:
         return f"{w!r} is lexed as {toks}, the reference tokenizer gives {ref}"
     return ""
+
+
+def replay_token_action(w: str, token) -> str:
+    """A text of one token's language on which its conversion is predicted to raise: every entry point may only raise JaqalError."""
+    for text in (f"let x {w}\nregister r[1]\n", f"register r[1]\ng r[{w}]\n", f"register r[1]\nloop {w} {{ g r[0] }}\n"):
+        try:
+            parse_jaqal_string(text, autoload_pulses=False)
+        except JaqalError:
+            continue
+        except Exception as ex:
+            return f"token {token} of {len(w)} characters: {type(ex).__name__} escaped from parse_jaqal_string: {str(ex)[:120]}"
+    return ""
